@@ -72,6 +72,16 @@ fn dump(v: Vec<{T}>) {{
 #[inline(never)] fn o_resize(ref mut v: Vec<{T}>, n: u64, x: {T}) {{ v.resize(n, x); dump(v); }}
 #[inline(never)] fn o_get(v: Vec<{T}>, i: u64) {{ log(v.get(i)); dump(v); }}
 #[inline(never)] fn o_clone(v: Vec<{T}>) -> Vec<{T}> {{ let c = v.clone(); dump(c); c }}
+#[inline(never)] fn o_iter(v: Vec<{T}>, x: {T}) {{
+    for e in v.iter() {{
+        log(e);
+    }}
+    let mut c = v.clone();
+    log(c == v);
+    c.push(x);
+    log(c == v);
+    dump(v);
+}}
 """.format(T=T)
 
 
@@ -102,6 +112,16 @@ fn dump(v: Bytes) {
 #[inline(never)] fn o_resize(ref mut v: Bytes, n: u64, x: u8) { v.resize(n, x); dump(v); }
 #[inline(never)] fn o_get(v: Bytes, i: u64) { log(v.get(i)); dump(v); }
 #[inline(never)] fn o_clone(v: Bytes) -> Bytes { let c = v.clone(); dump(c); c }
+#[inline(never)] fn o_iter(v: Bytes, x: u8) {
+    for e in v.iter() {
+        log(e);
+    }
+    let mut c = v.clone();
+    log(c == v);
+    c.push(x);
+    log(c == v);
+    dump(v);
+}
 #[inline(never)] fn o_append(ref mut v: Bytes, ref mut other: Bytes) { v.append(other); log(other); dump(v); }
 #[inline(never)] fn o_append_self(ref mut v: Bytes) { v.append(v); dump(v); }
 #[inline(never)] fn o_split_at(v: Bytes, mid: u64) {
@@ -205,8 +225,8 @@ def render_history(name, rec):
             out += assign("o_from_ascii(src%d)" % n)
         elif op in ("clone", "via_vec", "via_bytes"):
             out += assign("o_%s(v)" % op)
-        elif op == "push":
-            out += "    o_push(v, %s);\n" % lit(v)
+        elif op in ("push", "iter"):
+            out += "    o_%s(v, %s);\n" % (op, lit(v))
         elif op in ("pop", "clear", "append_self", "as_bytes_mut"):
             out += "    o_%s(v);\n" % op
         elif op in ("insert", "set"):
@@ -256,6 +276,8 @@ def num_helper(c):
     T = NTY[c["ty"]]
     op, pre, name = c["op"], MODE_PRE[c["mode"]], num_helper_name(c)
     hd = "#[inline(never)] fn %s" % name
+    if op == "divmod":
+        return "%s(a: %s, b: %s) { %slog((a / b, a %% b)); }\n" % (hd, T, T, pre)
     if op in BIN:
         return "%s(a: %s, b: %s) { %slog(a %s b); }\n" % (hd, T, T, pre, BIN[op])
     if op in ("wrapping_add", "wrapping_sub", "wrapping_mul"):
